@@ -982,4 +982,113 @@ theorem jsight_run {banned : List Kind} {e : Ent} {l : List Ent} {c c' : Cat} (h
     simp only [hs] at h
     exact run_inv (fun c => c.jsight = v03) l (fun e _ c c' hp hs => (jsight_stepR (step_ok hs).2).2 hp) c₁ c'
       ((jsight_stepR (step_ok hs).2).1 hk) h
+/-! ### appending a tree to an accepted forest -/
+
+theorem collectTags_append (f g : List BTree) (c : Cat) :
+    collectTags (f ++ g) c = (match collectTags f c with | .error x => .error x | .ok c' => collectTags g c') := by
+  induction f generalizing c with
+  | nil => simp [collectTags]
+  | cons t r ih =>
+    simp only [List.cons_append, collectTags, fail]
+    split
+    · split; · rfl
+      split; · rfl
+      exact ih _
+    · exact ih _
+
+theorem checkTypeNames_append (f g : List BTree) :
+    checkTypeNames (f ++ g) = (match checkTypeNames f with | .error x => .error x | .ok _ => checkTypeNames g) := by
+  induction f with
+  | nil => simp [checkTypeNames]
+  | cons t r ih =>
+    simp only [List.cons_append, checkTypeNames, fail]
+    split
+    · rfl
+    · exact ih
+
+theorem pathsForest_append (anc : List BDir) (f g : List BTree) (last : Option Nat) :
+    pathsForest anc (f ++ g) last =
+      (match pathsForest anc f last with | .error x => .error x | .ok l => pathsForest anc g l) := by
+  induction f generalizing last with
+  | nil => simp [pathsForest]
+  | cons t r ih =>
+    simp only [List.cons_append, pathsForest]
+    cases pathsTree anc t last with
+    | error x => rfl
+    | ok l => exact ih l
+
+/-- appending a tree that the pre-stages accept and whose directives leave `info` and `inters` alone -/
+theorem compile_snoc {banned : List Kind} {f : List BTree} {c c' : Cat} (h : compile banned f = .ok c) (hf : f ≠ [])
+    (t : BTree) (hk : t.dir.kind ≠ .TAG) (hty : ¬ (t.dir.kind = .Type ∧ t.dir.param "Name" = []))
+    (hp : ∀ last, ∃ x, pathsTree [] t last = .ok x) (hr : run banned (flatA [] t) c = .ok c')
+    (hinfo : c'.info = c.info) (hint : c'.inters = c.inters) : compile banned (f ++ [t]) = .ok c' := by
+  obtain ⟨c₀, h0, h1, ⟨x, h2⟩, h3, h4, h5, h6, h7⟩ := compile_ok h
+  obtain ⟨y, hy⟩ := hp x
+  refine compile_of (c₀ := c₀) (x := y) ?_ ?_ ?_ ?_ ?_ ?_ ?_ ?_
+  · rw [collectTags_append, h0]
+    simp [collectTags, hk]
+  · rw [checkTypeNames_append, h1]
+    simp only [checkTypeNames]
+    split
+    · rename_i hc; simp at hc; exact absurd hc hty
+    · rfl
+  · rw [pathsForest_append, h2]
+    simp [pathsForest, hy]
+  · intro t' r' he
+    cases f with
+    | nil => exact absurd rfl hf
+    | cons a r => simp at he; exact he.1 ▸ h3 a r rfl
+  · rw [flatAF_append, run_append, h4]
+    simp [flatAF, hr]
+  · unfold validateInfo; rw [hinfo]; exact h5
+  · rw [hint]; exact h6
+  · rw [hint]; exact h7
+
+theorem add_type_run {banned : List Kind} {c : Cat} {d : BDir} {nt : Bytes} (hk : d.kind = .Type)
+    (hn : d.param "Name" ≠ []) (hfresh : ∀ t ∈ c.types, t.name ≠ d.param "Name")
+    (hnot : newNotation (d.param "SchemaNotation") = .ok nt)
+    (hbody : (nt = nJsight ∨ nt = nRegex) → d.body.isSome) (hban : d.kind ∉ banned) :
+    run banned (flatA [] (.node d [])) c =
+      .ok { c with types := c.types ++ [{ name := d.param "Name", annot := d.annot, nota := nt }] } := by
+  rw [hk] at hban
+  have hany : c.types.any (fun x => x.name == d.param "Name") = false := by
+    rw [List.any_eq_false]; intro t ht; simpa using hfresh t ht
+  have hbd : ((nt == nJsight || nt == nRegex) && d.body.isNone) = false := by
+    cases hb' : d.body with
+    | some b => simp
+    | none =>
+      have : ¬ (nt = nJsight ∨ nt = nRegex) := fun h' => by simpa [hb'] using hbody h'
+      simp at this; simp [this]
+  simp only [flatA, flatAF, run, step, addDirective, hk, List.map_nil]
+  simp [addType, hban, hn, hany, hnot, liftAt, hbd, bind, Except.bind, pure, Except.pure]
+theorem add_server_run {banned : List Kind} {c : Cat} {d : BDir} (hk : d.kind = .Server)
+    (hn : d.param "Name" ≠ []) (hfresh : ∀ s ∈ c.servers, s.name ≠ d.param "Name") (hban : d.kind ∉ banned) :
+    run banned (flatA [] (.node d [])) c =
+      .ok { c with servers := c.servers ++ [{ name := d.param "Name", annot := d.annot }] } := by
+  rw [hk] at hban
+  have hany : c.servers.any (fun x => x.name == d.param "Name") = false := by
+    rw [List.any_eq_false]; intro t ht; simpa using hfresh t ht
+  simp only [flatA, flatAF, run, step, addDirective, hk, List.map_nil]
+  simp [addServer, hban, hn, hany]
+
+theorem add_server_baseurl_run {banned : List Kind} {c : Cat} {d b : BDir} (hk : d.kind = .Server)
+    (hn : d.param "Name" ≠ []) (hfresh : ∀ s ∈ c.servers, s.name ≠ d.param "Name") (hban : d.kind ∉ banned)
+    (hkb : b.kind = .BaseURL) (hp : b.param "Path" ≠ []) (hab : b.annot = []) (hbanb : b.kind ∉ banned) :
+    run banned (flatA [] (.node d [.node b []])) c =
+      .ok { c with servers := c.servers ++ [{ name := d.param "Name", annot := d.annot, baseUrl := b.param "Path" }] } := by
+  rw [hk] at hban
+  rw [hkb] at hbanb
+  have hany : c.servers.any (fun x => x.name == d.param "Name") = false := by
+    rw [List.any_eq_false]; intro t ht; simpa using hfresh t ht
+  have hfind : c.servers.find? (fun x => x.name == d.param "Name") = none := by
+    rw [List.find?_eq_none]; intro t ht; simpa using hfresh t ht
+  have hmap : c.servers.map (fun x => if x.name = d.param "Name" then { x with baseUrl := b.param "Path" } else x)
+      = c.servers := by
+    conv => rhs; rw [← List.map_id c.servers]
+    apply List.map_congr_left
+    intro x hx
+    have := hfresh x hx
+    simp [this]
+  simp only [flatA, flatAF, run, step, addDirective, hk, hkb, List.map_nil, List.map_cons, List.append_nil, BTree.dir]
+  simp [addServer, addBaseUrl, hban, hbanb, hn, hany, hp, hab, List.find?_append, hfind, hmap]
 end JSight.C04B
